@@ -18,7 +18,7 @@ use fbh::report::{guarded, Report};
 use crate::classes::{Side, ENVIRONMENT, ENV_ITFS, ENV_TYPE};
 
 // ---------------------------------------------------------------- inputs
-pub struct Corpus { pub all: Vec<(String, Vec<u8>)>, /** indices of records and sealed classes */ pub featured: Vec<usize> }
+pub struct Corpus { pub all: Vec<(String, Vec<u8>)>, /** indices of records and sealed classes */ pub featured: Vec<usize>, /** indices of classes with type annotations or module data */ pub typed: Vec<usize> }
 
 fn read(b: &[u8]) -> Option<ClassFile> {
 	let b = b.to_vec();
@@ -37,20 +37,24 @@ fn keys_nodup(k: &ClassFile) -> bool {
 
 /// the corpus classes duke reads (an unreadable one is C01's finding), small enough to print
 pub fn load_corpus() -> Corpus {
-	let mut all = vec![]; let mut featured = vec![];
+	let mut all = vec![]; let mut featured = vec![]; let mut typed = vec![];
 	for (name, bytes) in fbh::classfile::corpus::corpus_classes() {
 		if bytes.len() > 6000 { continue; }
 		let Some(k) = read(&bytes) else { continue };
 		if !keys_nodup(&k) || k.methods.len() > 24 || k.fields.len() > 24 { continue; }
+		let type_annotated = !k.runtime_visible_type_annotations.is_empty() || !k.runtime_invisible_type_annotations.is_empty()
+			|| k.fields.iter().any(|f| !f.runtime_visible_type_annotations.is_empty() || !f.runtime_invisible_type_annotations.is_empty())
+			|| k.methods.iter().any(|m| !m.runtime_visible_type_annotations.is_empty() || !m.runtime_invisible_type_annotations.is_empty());
 		if k.permitted_subclasses.is_some() || !k.record_components.is_empty() { featured.push(all.len()); }
+		if type_annotated || k.module.is_some() { typed.push(all.len()); }
 		all.push((name, bytes));
 	}
-	Corpus { all, featured }
+	Corpus { all, featured, typed }
 }
 
 /// which members / interfaces of a class a build keeps (indices into the original lists), in which order
 #[derive(Clone, Debug)]
-pub struct Keep { pub fields: Vec<usize>, pub methods: Vec<usize>, pub itfs: Vec<usize> }
+pub struct Keep { pub fields: Vec<usize>, pub methods: Vec<usize>, pub itfs: Vec<usize>, /** which of the fields the merge only copies this build lacks (bit mask, see trim_tree); tree builds only */ pub blank: u32 }
 fn keep_some(rng: &mut Rng, n: usize, all: bool, reorder: bool) -> Vec<usize> {
 	let mut v: Vec<usize> = (0..n).filter(|_| all || rng.chance(2, 3)).collect();
 	if reorder && v.len() >= 2 { let i = rng.below(v.len() - 1); v.swap(i, i + 1); }
@@ -58,13 +62,43 @@ fn keep_some(rng: &mut Rng, n: usize, all: bool, reorder: bool) -> Vec<usize> {
 }
 fn gen_keep(rng: &mut Rng, nf: usize, nm: usize, ni: usize) -> Keep {
 	let all = rng.chance(1, 5); let reorder = rng.chance(1, 8); let all_itfs = all || rng.chance(1, 2);
-	Keep { fields: keep_some(rng, nf, all, reorder), methods: keep_some(rng, nm, all, reorder), itfs: keep_some(rng, ni, all_itfs, false) }
+	Keep { fields: keep_some(rng, nf, all, reorder), methods: keep_some(rng, nm, all, reorder), itfs: keep_some(rng, ni, all_itfs, false), blank: if rng.chance(1, 2) { rng.next() as u32 & rng.next() as u32 } else { 0 } }
 }
 fn trim_tree(k: &ClassFile, keep: &Keep) -> ClassFile {
 	let mut t = k.clone();
 	t.fields = keep.fields.iter().map(|&i| k.fields[i].clone()).collect();
 	t.methods = keep.methods.iter().map(|&i| k.methods[i].clone()).collect();
 	t.interfaces = keep.itfs.iter().map(|&i| k.interfaces[i].clone()).collect();
+	// a build that lacks some of what the merge only copies (signatures, type annotations, nest and module data,
+	// debug info): the two versions then differ in these fields of the tree
+	let b = |i: u32| keep.blank & (1 << i) != 0;
+	if b(0) { t.signature = None; }
+	if b(1) { t.source_file = None; }
+	if b(2) { t.enclosing_method = None; }
+	if b(3) { t.runtime_visible_type_annotations.clear(); }
+	if b(4) { t.runtime_invisible_type_annotations.clear(); }
+	if b(5) { t.nest_host_class = None; }
+	if b(6) { t.nest_members = None; }
+	if b(7) { t.module = None; t.module_packages = None; t.module_main_class = None; }
+	if b(8) { t.source_debug_extension = None; }
+	for (j, m) in t.methods.iter_mut().enumerate() {
+		let b = |i: u32| keep.blank & (1 << ((i + j as u32) % 32)) != 0 && keep.blank & (1 << 9) != 0;
+		if b(10) { m.signature = None; }
+		if b(11) { m.exceptions = None; }
+		if b(12) { m.runtime_visible_annotations.clear(); }
+		if b(13) { m.runtime_visible_type_annotations.clear(); }
+		if b(14) { m.runtime_invisible_type_annotations.clear(); }
+		if b(15) { m.annotation_default = None; }
+		if b(16) { m.method_parameters = None; }
+	}
+	for (j, f) in t.fields.iter_mut().enumerate() {
+		let b = |i: u32| keep.blank & (1 << ((i + j as u32) % 32)) != 0 && keep.blank & (1 << 9) != 0;
+		if b(17) { f.signature = None; }
+		if b(18) { f.runtime_visible_annotations.clear(); }
+		if b(19) { f.runtime_visible_type_annotations.clear(); }
+		if b(20) { f.runtime_invisible_type_annotations.clear(); }
+		if b(21) { f.constant_value = None; }
+	}
 	t
 }
 fn trim_spec(k: &ClassSpec, keep: &Keep) -> ClassSpec {
@@ -94,10 +128,11 @@ pub fn real_pair(rng: &mut Rng, corpus: &Corpus) -> Option<RealPair> {
 		}
 		2 | 3 if !corpus.all.is_empty() => {
 			// a javac class against a build that lacks some members (written by duke); or two such builds
-			let i = if !corpus.featured.is_empty() && rng.chance(1, 3) { *rng.pick(&corpus.featured) } else { rng.below(corpus.all.len()) };
+			let i = if !corpus.typed.is_empty() && rng.chance(1, 3) { *rng.pick(&corpus.typed) } else if !corpus.featured.is_empty() && rng.chance(1, 3) { *rng.pick(&corpus.featured) } else { rng.below(corpus.all.len()) };
 			let (name, bytes) = &corpus.all[i];
 			let k = read(bytes)?;
-			let ks = gen_keep(rng, k.fields.len(), k.methods.len(), k.interfaces.len());
+			let mut ks = gen_keep(rng, k.fields.len(), k.methods.len(), k.interfaces.len());
+			if corpus.typed.contains(&i) { ks.blank = rng.next() as u32 | (1 << 9); } // this build lacks about half of the copied-only data
 			let server = write(&trim_tree(&k, &ks))?;
 			let origin_s = format!("duke::write_class of corpus class {name} keeping {ks:?}");
 			if rng.chance(1, 2) {
@@ -119,7 +154,7 @@ pub fn real_pair(rng: &mut Rng, corpus: &Corpus) -> Option<RealPair> {
 			let (kc, ks) = if trimmed {
 				(gen_keep(rng, spec.fields.len(), spec.methods.len(), spec.interfaces.len()), gen_keep(rng, spec.fields.len(), spec.methods.len(), spec.interfaces.len()))
 			} else {
-				let all = Keep { fields: (0..spec.fields.len()).collect(), methods: (0..spec.methods.len()).collect(), itfs: (0..spec.interfaces.len()).collect() };
+				let all = Keep { fields: (0..spec.fields.len()).collect(), methods: (0..spec.methods.len()).collect(), itfs: (0..spec.interfaces.len()).collect(), blank: 0 };
 				(all.clone(), all)
 			};
 			let client = try_assemble(&trim_spec(&spec, &kc), &fam[k1]).ok()?;
